@@ -15,7 +15,14 @@ def _tup(t):
 
 
 PATTERNS = [_tup(t) for t in param("patterns", [])]
-EXPRS = [untraced(pat.to_expression)(t) for t in PATTERNS]
+BASE = 1000     # letters are the ints 1000..1003, computed at run time: equal values are then distinct objects (a matcher must compare by ==, not identity)
+
+
+def _lift(t):
+    return ("atom", BASE + t[1]) if t[0] == "atom" else (t[0],) + tuple(_lift(c) for c in t[1:])
+
+
+EXPRS = [untraced(pat.to_expression)(_lift(t)) for t in PATTERNS]
 L = param("L", 4)
 TOLERATE = param("tolerate", [])
 
@@ -56,8 +63,8 @@ def h_find_all(p: int, n: int, w0: int, w1: int, w2: int, w3: int, w4: int, w5: 
     post: _
     """
     w = [w0, w1, w2, w3, w4, w5][:n]
-    r = matcher.find_all(EXPRS[p], w)
-    ms = [(m.start, m.end, m.tokens) for m in r]
+    r = matcher.find_all(EXPRS[p], [BASE + x for x in w])
+    ms = [(m.start, m.end, [x - BASE for x in m.tokens]) for m in r]
     bad = clauses(PATTERNS[p], w, ms)
     if bad and TOLERATE and classify(PATTERNS[p], w, ms, bad) in TOLERATE:
         bad = []            # a listed known finding: assumed away so that the rest of the space is still explored
@@ -89,8 +96,8 @@ def real_h_find_all(p, n, w0, w1, w2, w3, w4, w5):
     from codelimit.common.gsm.matcher import find_all
     w = [w0, w1, w2, w3, w4, w5][:n]
     t = PATTERNS[p]
-    r = find_all(pat.to_expression(t), w)
-    ms = [(m.start, m.end, list(m.tokens)) for m in r]
+    r = find_all(pat.to_expression(_lift(t)), [int(str(BASE + x)) for x in w])
+    ms = [(m.start, m.end, [x - BASE for x in m.tokens]) for m in r]
     bad = clauses(t, w, ms)
     sig = classify(t, w, ms, bad)
     return {"reproduced": bool(bad), "sig": sig, "detail": f"pattern {pat.show(t)} on {''.join('abcd'[x] for x in w)!r} -> {[(s, e) for s, e, _ in ms]} violates {bad}"}
